@@ -12,7 +12,7 @@ use serde_json::json;
 pub static SPEC: PropSpec = PropSpec {
     id: "C08",
     level: "exploration",
-    rule: "tests: closure body shape (14: a captured dyn value used only as dyn-call receiver, arithmetic, if, int / string / tuple / enum matches with the captured variable in one arm only - including only the default arm -, capture through an inner closure only, shadowing inside the body, loops, Ref reads and updates, calling a captured function value, struct field of a captured struct) x capture kind (8: parameter, shadowed let, tuple-pattern variable, match-arm variable, outer closure parameter, value read from a Ref, the Ref cell itself, top-level function value) x flow (6: direct call, returned from a function - directly, in a flat tuple, nested in tuples on the left / right, in a field of a generic struct instantiated at the function type, in a field of a plain struct taken out by a struct pattern -, two closures sharing a Ref returned in a tuple, captured by another closure, created and called in a loop, nested three deep); exhaustive over the product, packed 24 tests per program; in every other cell whose body does not mention it, the closure parameter is named like the enclosing function's parameter `a`; plus random closure-heavy programs. non-trivial: all tests; distinct by (shape, capture, flow)",
+    rule: "tests: closure body shape (14: a captured dyn value used only as dyn-call receiver, arithmetic, if, int / string / tuple / enum matches with the captured variable in one arm only - including only the default arm -, capture through an inner closure only, shadowing inside the body, loops, Ref reads and updates, calling a captured function value, struct field of a captured struct) x capture kind (8: parameter, shadowed let, tuple-pattern variable, match-arm variable, outer closure parameter, value read from a Ref, the Ref cell itself, top-level function value) x flow (6: direct call, returned from a function - directly, in a flat tuple, nested in tuples on the left / right, in a field of a generic struct instantiated at the function type, in a field of a plain struct taken out by a struct pattern; the helper named plainly, with a trailing `_`, with `__` inside, or an inherent method called in path and dot form -, two closures sharing a Ref returned in a tuple, captured by another closure, created and called in a loop, nested three deep); exhaustive over the product, packed 24 tests per program; in every other cell whose body does not mention it, the closure parameter is named like the enclosing function's parameter `a`; plus random closure-heavy programs. non-trivial: all tests; distinct by (shape, capture, flow)",
     eval_counter: "tests",
     assumptions: &["closure values flowing into function-typed parameters / struct fields / heterogeneous branches are outside the clean lattice (recorded C02 finding); relative to refsem and gomini"],
     crash_is_violation: false,
@@ -225,7 +225,24 @@ fn test(k: usize, shape: usize, cap: usize, flow: usize) -> Vec<FnDecl> {
         // how the helper hands the closure out: directly, in a flat tuple, or nested in tuples (left / right)
         let fty = Ty::Func(vec![I32], Box::new(I32));
         let second = clo(&[("q", I32)], add(var("q"), var("b")));
-        let call_mk = Expr::Call { name: format!("mk{}", k), targs: vec![], args: vec![var("a"), var("b")] };
+        // the helper's name: plain, ending in `_`, containing `__`, or an inherent method (`Mkr<k>::make`)
+        let mkname = match k % 4 {
+            0 => format!("mk{}", k),
+            1 => format!("mk{}_", k),
+            2 => format!("mk__{}", k),
+            _ => format!("METHOD:Mkr{}", k),
+        };
+        let mkr_ty = Ty::Struct(format!("Mkr{}", k), vec![]);
+        let call_mk = if k % 4 == 3 {
+            let recv = Expr::StructLit { name: format!("Mkr{}", k), ty: mkr_ty.clone(), fields: vec![("tag".into(), i(0))] };
+            if shape % 2 == 0 {
+                Expr::AssocCall { head: format!("Mkr{}", k), method: "make".into(), args: vec![recv, var("a"), var("b")] }
+            } else {
+                Expr::Block(vec![Stmt::Let(Pat::Var("mkr".into()), Some(mkr_ty.clone()), recv)], Some(Box::new(Expr::MethodCall { recv: Box::new(var("mkr")), method: "make".into(), args: vec![var("a"), var("b")] })))
+            }
+        } else {
+            Expr::Call { name: mkname.clone(), targs: vec![], args: vec![var("a"), var("b")] }
+        };
         let pv = |n: &str| Pat::Var(n.into());
         let slot_ty = Ty::Struct(format!("Slot{}", k), vec![fty.clone()]);
         let hold_ty = Ty::Struct(format!("Hold{}", k), vec![]);
@@ -264,7 +281,11 @@ fn test(k: usize, shape: usize, cap: usize, flow: usize) -> Vec<FnDecl> {
                 add(add(add(callv(var("f"), vec![i(2)]), callv(var("g"), vec![i(5)])), var("n")), var("m")),
             ),
         };
-        fns.push(FnDecl { name: format!("mk{}", k), tparams: vec![], params: vec![("a".into(), I32), ("b".into(), I32)], ret, body: Expr::Block(vec![], Some(Box::new(result))) });
+        let mut params: Vec<(String, Ty)> = vec![("a".into(), I32), ("b".into(), I32)];
+        if k % 4 == 3 {
+            params.insert(0, ("self".into(), mkr_ty.clone()));
+        }
+        fns.push(FnDecl { name: mkname, tparams: vec![], params, ret, body: Expr::Block(vec![], Some(Box::new(result))) });
         let b2 = blk(vec![bind, let_("res", use_e)], show(var("res")));
         fns.push(FnDecl { name, tparams: vec![], params: vec![("a".into(), I32), ("b".into(), I32)], ret: Ty::Unit, body: b2 });
     } else {
@@ -273,7 +294,7 @@ fn test(k: usize, shape: usize, cap: usize, flow: usize) -> Vec<FnDecl> {
     fns
 }
 
-fn program(tests: &[(usize, usize, usize)]) -> Program {
+pub fn program(tests: &[(usize, usize, usize)]) -> Program {
     let mut prog = Program::default();
     prog.items.push(Item::Enum(EnumDecl { name: "Ev".into(), tparams: vec![], variants: vec![("V0".into(), vec![]), ("V2".into(), vec![I32, I32])], derives: vec![] }));
     // every test has its own holder types: a struct field that stores a closure takes that closure's type
@@ -293,8 +314,15 @@ fn program(tests: &[(usize, usize, usize)]) -> Program {
     prog.items.push(Item::Fn(FnDecl { name: "dblr".into(), tparams: vec![], params: vec![("v".into(), I32)], ret: I32, body: blk(vec![], bin(BinOp::Mul, var("v"), i(2))) }));
     let mut stmts = Vec::new();
     for (k, (sh, cp, fl)) in tests.iter().enumerate() {
-        for f in test(k, *sh, *cp, *fl) {
-            prog.items.push(Item::Fn(f));
+        for mut f in test(k, *sh, *cp, *fl) {
+            if let Some(ty_name) = f.name.strip_prefix("METHOD:").map(|x| x.to_string()) {
+                // a helper that is an inherent method of its own struct
+                f.name = "make".into();
+                prog.items.push(Item::Struct(StructDecl { name: ty_name.clone(), tparams: vec![], fields: vec![("tag".into(), I32)], derives: vec![] }));
+                prog.items.push(Item::Impl(ImplDecl { trait_name: None, for_ty: Ty::Struct(ty_name, vec![]), tparams: vec![], methods: vec![f] }));
+            } else {
+                prog.items.push(Item::Fn(f));
+            }
         }
         stmts.push(discard(Expr::Call { name: format!("t{}", k), targs: vec![], args: vec![i(7 + k as i128 % 5), i(2 + k as i128 % 3)] }));
     }
